@@ -159,7 +159,7 @@ class FromEpNameBody(FnSpec):
 
 
 def add_epnames(reg, from_ep_name_cls=None):
-    specs = [ToSemverStr(), FromSemverStr(), ToEpName(), (from_ep_name_cls or FromEpNameBody)()]
+    specs = [ToSemverStr(), FromSemverStr(), ToEpName(), (from_ep_name_cls or FromEpNameBody)(), PluginArgs()]
     for s in specs:
         reg.add(s)
     return specs
@@ -302,3 +302,128 @@ def add_stored(reg):
     for s in specs:
         reg.add(s)
     return specs
+
+
+# ---- plugin_args: what name and version a request means ------------------------------------------------------------------------------
+class ArgShape(SVal):
+    """the `plugin` argument: a str | a (name, version) pair | an object with name and version (PluginRef, Plugin info) | a class with an inner Plugin | something else"""
+
+    def __init__(self, shape, depth=0):
+        self.shape, self.depth = shape, depth
+        self.name = SStr.fresh(f"name_of_{shape}_{depth}")
+        self.ver = VerTok(f"version_of_{shape}_{depth}")
+
+    def py_isinstance(self, cx, c):
+        names = c if isinstance(c, (tuple, list)) else [c]
+        out = False
+        for n in names:
+            n = getattr(n, "name", n)
+            if n == "str":
+                out = out or self.shape == "str"
+            elif n == "tuple":
+                out = out or self.shape == "pair"
+            elif n == "HasNameVersion":
+                out = out or self.shape == "named"
+            elif n != "object":
+                raise Unsupported(f"isinstance against {n!r}")
+        return out
+
+    def py_len(self, cx):
+        if self.shape == "pair":
+            return 2
+        raise Unsupported("len of the plugin argument")
+
+    def py_getitem(self, cx, i):
+        if self.shape == "pair" and i in (0, 1):
+            return self.name if i == 0 else self.ver
+        raise Unsupported("subscript of the plugin argument")
+
+    def py_getattr(self, cx, n):
+        if self.shape == "named" and n in ("name", "version"):
+            return self.name if n == "name" else self.ver
+        if n == "Plugin":
+            if self.shape == "class":
+                if not hasattr(self, "info"):
+                    self.info = ArgShape("named", self.depth + 1)
+                return self.info
+            cx.py_raise("AttributeError", "no Plugin")
+        raise Unsupported("attribute of the plugin argument: " + n)
+
+    def py_truth(self, cx):
+        return True  # objects and classes are truthy; (an empty str name is outside the callers' use: see setup)
+
+    def py_str(self, cx):
+        return self.name
+
+
+class VerTok(SVal):
+    """a version tuple (never empty, so truthy) identified by where it came from"""
+
+    def __init__(self, tag):
+        self.tag = tag
+
+    def py_truth(self, cx):
+        return True
+
+    def py_is_none(self, cx):
+        return False
+
+
+class PluginArgs(FnSpec):
+    file = "plugin/types.py"
+    qual = "plugin_args"
+    props = ("C16", "C07")
+    recursive = True
+
+    def init(self):
+        self.bindings["HasNameVersion"] = type("C", (), {"name": "HasNameVersion"})()
+
+    def setup(self, cx):
+        shape = ["str", "pair", "named", "class", "other"][cx.choose(5)]
+        given = cx.choose(2) == 1
+        req = cx.choose(2) == 1
+        a = A(plugin=ArgShape(shape), version=VerTok("version_argument") if given else None, require_version=req)
+        a.shape, a.given, a.req = shape, given, req
+        return a
+
+    def expected(self, a):
+        p = a.plugin
+        if a.shape == "str":
+            return p, a.version  # for a str the name IS the argument
+        if a.shape in ("pair", "named"):
+            return p.name, (a.version if a.given else p.ver)
+        if a.shape == "class":
+            return p.info.name if hasattr(p, "info") else None, (a.version if a.given else (p.info.ver if hasattr(p, "info") else None))
+        return "", a.version
+
+    def raises(self, cx, a):
+        want_name, want_ver = self.expected(a) if a.shape != "class" else (None, a.version if a.given else "some")
+        return {"ValueError": z3.BoolVal(bool(a.req and want_ver is None))}
+
+    def ensures(self, cx, a, res):
+        items = res.items if isinstance(res, STuple) else (list(res) if isinstance(res, (tuple, list)) else None)
+        if items is None or len(items) != 2:
+            return [("name-and-version", z3.BoolVal(False), "returns (name, version)")]
+        wn, wv = self.expected(a)
+        nm, ver = items
+        name_ok_ = (nm is wn) or (isinstance(nm, str) and isinstance(wn, str) and nm == wn)
+        return [
+            ("the-name-the-argument-carries", z3.BoolVal(bool(name_ok_)), "the name is the string itself, the first of a pair, the .name of a reference/plugin info, or that of a class's inner Plugin"),
+            ("explicit-version-wins-else-the-carried-one", z3.BoolVal(ver is wv), "an explicitly passed version takes precedence; otherwise the version the argument carries (None for a bare name)"),
+        ]
+
+    # callee side (the recursion on the inner Plugin info)
+    def bind_call(self, interp, cx, f, args, kwargs):
+        a = FnSpec.bind_call(self, interp, cx, f, args, kwargs)
+        p = a.plugin
+        if not isinstance(p, ArgShape):
+            raise Unsupported("plugin_args contract used on another kind of value")
+        a.shape, a.given, a.req = p.shape, a.get("version") is not None, bool(a.get("require_version", False))
+        return a
+
+    def result(self, cx, a):
+        p = a.plugin
+        if not isinstance(p, ArgShape) or p.shape != "named":
+            raise Unsupported("plugin_args contract used on another shape")
+        v = a.get("version")
+        return STuple((p.name, v if v is not None else p.ver))
